@@ -30,6 +30,7 @@ def run(tier):
         H.number_bases(prog, rep)
         H.budget(prog, rep, L)
         H.cookie_init(prog, rep, L)
+        H.eol_scan(prog, rep)
         H.header_scan(prog, rep)
         # the buffered reader under the decoder: header blocks and chunks larger than its initial buffer must still fit
         # (window invariant, growth and compaction tests; relational rules shared with C07)
